@@ -4,6 +4,7 @@ CONSTANTS
   Seeds = {0, 1}
   MaxCalls = 5
   FitLeavesCohort = TRUE
+  Script <- Free
 INVARIANT ResultDependsOnlyOn
 INVARIANT CallerInputsUntouched
 INVARIANT PopAtMode
